@@ -19,27 +19,24 @@ Proof.
 Qed.
 
 Lemma raw_lex_pieces ps :
-  forallb valid_piece_d ps = true -> outside_known ps = true -> not_merged ps = true ->
+  forallb valid_piece_d ps = true -> not_merged ps = true ->
   raw_lex (render ps) = map rtok_of_piece ps.
 Proof.
-  intros V K M. rewrite raw_lex_eq. rewrite (conforms ps V K M). unfold expected_tokens.
+  intros V M. rewrite raw_lex_eq. rewrite (conforms ps V M). unfold expected_tokens.
   rewrite map_app, filter_app. cbn [map filter mk_rtok rk]. change (tk_eqb T_Eof T_Eof) with true.
   cbn [negb]. rewrite app_nil_r.
   induction ps as [|p ps IH]; [reflexivity|].
   cbn [forallb] in V. apply andb_true_iff in V. destruct V as [Vp V].
   cbn [map filter mk_rtok rk]. rewrite (valid_not_eof p Vp). cbn [negb].
-  f_equal.
-  - clear. (* the remaining obligations only concern the tail *) reflexivity.
-  - apply IH; try assumption.
-    + unfold outside_known in *. cbn [existsb] in K. rewrite negb_orb in K. apply andb_true_iff in K. tauto.
-    + cbn [not_merged] in M. apply andb_true_iff in M. tauto.
+  f_equal. apply IH; [exact V|].
+  cbn [not_merged] in M. apply andb_true_iff in M. tauto.
 Qed.
 
 Lemma selects_text_pieces ps items :
-  forallb valid_piece_d ps = true -> outside_known ps = true -> not_merged ps = true ->
+  forallb valid_piece_d ps = true -> not_merged ps = true ->
   map rtok_of_piece ps = render_items items -> items_ok items = true ->
   filter not_pp (prep_text (render ps)) = map deliver (snd (select [] items)) ++ [eof_entry].
 Proof.
-  intros V K M R O. apply C15_selects_text_proof; [|exact O].
-  rewrite (raw_lex_pieces ps V K M). exact R.
+  intros V M R O. apply C15_selects_text_proof; [|exact O].
+  rewrite (raw_lex_pieces ps V M). exact R.
 Qed.
